@@ -3,6 +3,13 @@
 # the evidence next to what the engine measured.
 
 PROPS = {
+    "C11": {
+        "groups": [
+            {"pkg": "client", "tags": "verif,test", "harness": "^verifH_C11_sync_reply", "unwind": 3, "feas_ms": 0, "timeout_ms": 60000},
+        ],
+        "bounds": {"reply": "length prefix + 0..920 bytes of arbitrary content (at most 2 complete server entries after the 576-byte header; longer replies are outside the claim)"},
+        "outside": ["real network timing/back-pressure"],
+    },
     "C16": {
         "groups": [
             {"pkg": "client", "tags": "verif,test", "harness": "^verifH_C16_", "unwind": 5},
